@@ -25,6 +25,13 @@ def general_scenario(rng, i, tier):
         GEN.add_const_rules(rng, spec)
     if m == 6:                      # early stop on the output position / speed / motor current
         add_stop(rng, spec)
+    if m in (3, 7) and rng.random() < 0.6:
+        # position- / speed-keyed rules (duty cycles that vary from instant to instant)
+        from . import c15 as C15
+        kinds = ['reach', 'startprop'] + (['startlim'] if spec['motor']['i0'] is not None else [])
+        if spec['motor']['i0'] is None:
+            kinds = ['reach']
+        spec['rules'].append(C15.make_rule(rng, spec, rng.choice(kinds), sim=True))
     return spec
 
 
